@@ -21,6 +21,47 @@ CLAIMS = {
              "(N<=5 quick, N=6 thorough) and every completion order of the three executor flavours, each combination "
              "is called exactly once and its result sits in its own slot.  'Confirmed over all paths' per condition; "
              "counterexamples are replayed on the real random module before being reported."),
+    "C04": dict(
+        engine="A", category="model_checking", design_ref="DESIGN.md 5/C04",
+        technique="CrossHair symbolic execution of the real Crop/Sower/Reaper/grow code on an in-memory file system; "
+                  "batching parameters, shuffle placement/permutation, grow order/grouping and session flags are "
+                  "solver variables",
+        text="Bounded symbolic model checking of the real sow/grow/reap pipeline against the direct run, one "
+             "dimension at a time (batching for N<=6 quick / N<=10 thorough, every shuffle permutation of N<=4, every "
+             "order and grouping of B<=3 (4) batches, fresh Crop objects between steps, the real pickling library "
+             "lookup).  Counterexamples are replayed on a real temp directory with the real random module."),
+    "C07": dict(
+        engine="A", category="model_checking", design_ref="DESIGN.md 5/C07",
+        technique="CrossHair symbolic execution of the real sow on FakeFS: batch files compared with the direct "
+                  "run's call log (Engine B kernel for n<=48 to follow)",
+        text="For every (N<=6 quick / <=10 thorough, batchsize|num_batches|neither), grids, case lists and cases x "
+             "sub-grid, with and without farmer constants/resources and under every shuffle permutation of N<=4: the "
+             "batch files partition the direct run's settings exactly, sizes honour the request, and the crop reports "
+             "the same numbers after a reload."),
+    "C08": dict(
+        engine="A", category="model_checking", design_ref="DESIGN.md 5/C08",
+        technique="CrossHair, inductive step: arbitrary valid crop state (solver-chosen finished subset) + one "
+                  "solver-chosen operation, four progress queries compared with a ghost set",
+        text="One-step induction over a stated representation invariant: from every crop state with B<=3 (4) batches "
+             "and any finished subset, each of ten operations (re-sow, grow, grow subset, grow_missing, failing grow, "
+             "delete, two kinds of corruption + check_bad, reload, healthy check_bad) leaves num_results, "
+             "num_sown_batches, missing_results, is_ready_to_reap, str(crop) and the result files equal to the ghost "
+             "state; plus all histories of length 2 (3) from the empty state."),
+    "C09": dict(
+        engine="A", category="model_checking", design_ref="DESIGN.md 5/C09",
+        technique="CrossHair symbolic execution of the real allow_incomplete reap for every solver-chosen subset of "
+                  "finished batches and every (N, batching) with and without remainder",
+        text="Every non-empty proper subset of finished batches for N<=5 (7 thorough) x batchsize/num_batches 1..N, "
+             "result kinds number/tuple/bool/str, clean_up settings, shuffled sowing and cases x sub-grid: finished "
+             "positions exact, others the placeholder, nothing deleted by default, later full reap exact, refusal "
+             "without allow_incomplete leaves the crop untouched."),
+    "C12": dict(
+        engine="A", category="model_checking", design_ref="DESIGN.md 5/C12",
+        technique="CrossHair symbolic execution of the real reap paths with solver-chosen clean_up/allow_incomplete/"
+                  "wait and failure stage, followed by the corrected retry",
+        text="All combinations of clean_up x allow_incomplete x wait x failure stage on raw crops (farmer kinds to "
+             "follow): the crop directory survives every reap that raises and every reap whose effective clean_up "
+             "is false; the corrected retry returns exactly the direct-run result."),
 }
 
 NOT_APPLICABLE = {
